@@ -95,6 +95,11 @@ def run(ctx, report):
                     probs.append(f"written index {df.index.name!r} came back as {list(got.index.names)}")
                 elif canon_series(pd.Series(got.index)) != canon_series(pd.Series(df.index)):
                     probs.append(f"index values {list(got.index)[:5]} differ from {list(df.index)[:5]}")
+            if isinstance(df.index, pd.MultiIndex) and wi is True:
+                if list(got.index.names) != list(df.index.names):
+                    probs.append(f"multi-index levels {list(df.index.names)} came back as {list(got.index.names)}")
+                elif [tuple(map(str, t)) for t in got.index.tolist()] != [tuple(map(str, t)) for t in df.index.tolist()]:
+                    probs.append(f"multi-index values {got.index.tolist()[:4]} differ from {df.index.tolist()[:4]}")
             if isinstance(df.index, pd.RangeIndex) and wi is None and not named_index and (df.index.start, df.index.step) != (0, 1) and len(got) == len(df):
                 if list(got.index) != list(df.index):
                     probs.append(f"range index {df.index!r} came back as {got.index!r}")
